@@ -65,13 +65,17 @@ class RefEmit:
                 uris.append(f.uri)
         self.pfx = {u: f"n{i}" for i, u in enumerate(uris)}
 
-    def member_type(self, m):
+    def member_type(self, m, struct_comp=None):
         kind, t = member_target(m)
         if kind == "builtin":
             inner = BUILTINS[t]
         else:
             inner = self.names[id(t)]
         w = "Vec" if m["repeated"] else ("Option" if m["optional"] else "")
+        if kind != "builtin" and t is struct_comp and w != "Vec":
+            # a member of the struct's own type: the reference struct takes its indirection from a Vec (such members are always
+            # left out of the sampled values, so nothing but the emptiness of that Vec is ever compared)
+            w = "Vec"
         return f"{w}<{inner}>" if w else inner
 
     def source(self):
@@ -110,7 +114,7 @@ class RefEmit:
                     u = self.ss.files[m["decl_file"]].uri
                     pre = f'prefix = "{self.pfx[u]}", ' if u is not None else ""
                     out.append(f"        #[yaserde({pre}rename = {rust_str(m['name'].xml)})]")
-                out.append(f"        pub f{i}: {self.member_type(m)},")
+                out.append(f"        pub f{i}: {self.member_type(m, comp)},")
             out.append("    }")
         out.append("}")
         return "\n".join(out)
@@ -123,6 +127,9 @@ class RefEmit:
         _, comp, vals = v
         fields = []
         for i, (m, x) in enumerate(zip(flat_members(comp), vals)):
+            if member_target(m)[1] is comp and not m["repeated"]:
+                fields.append(f"f{i}: vec![]")
+                continue
             fields.append(f"f{i}: {self._wrapped(m, x, self.literal)}")
         return f"r::{self.names[id(comp)]} {{ {', '.join(fields)} }}"
 
